@@ -775,10 +775,10 @@ template <class G> int runOne(const std::string &prop, Family fam, bool directed
                 ctorSequences<G, LabeledEdge<L>, !std::is_same<L, UserLabel>::value>(rep, rep.config, maxLen, {1, 2}, [](unsigned i, unsigned j, long v) { return LabeledEdge<L>{i, j, LabelAlpha<L>::value(v)}; },
                                                  [](G &g, unsigned i, unsigned j, long v) { g.addEdge(i, j, LabelAlpha<L>::value(v)); });
         } else if constexpr (T::fam == MULTI) {
-            ctorSequences<G, LabeledEdge<EdgeMultiplicity>, true>(rep, rep.config, maxLen, {1, 3}, [](unsigned i, unsigned j, long v) { return LabeledEdge<EdgeMultiplicity>{i, j, (EdgeMultiplicity)v}; },
+            ctorSequences<G, LabeledEdge<EdgeMultiplicity>, true>(rep, rep.config, maxLen, {0, 1, 3}, [](unsigned i, unsigned j, long v) { return LabeledEdge<EdgeMultiplicity>{i, j, (EdgeMultiplicity)v}; },
                                                             [](G &g, unsigned i, unsigned j, long v) { g.addMultiedge(i, j, (EdgeMultiplicity)v); });
         } else {
-            ctorSequences<G, LabeledEdge<EdgeWeight>, true>(rep, rep.config, maxLen, {-6, 8}, [](unsigned i, unsigned j, long v) { return LabeledEdge<EdgeWeight>{i, j, weightOf(v)}; },
+            ctorSequences<G, LabeledEdge<EdgeWeight>, true>(rep, rep.config, maxLen, {-6, 0, 8}, [](unsigned i, unsigned j, long v) { return LabeledEdge<EdgeWeight>{i, j, weightOf(v)}; },
                                                       [](G &g, unsigned i, unsigned j, long v) { g.addEdge(i, j, weightOf(v)); });
         }
     } else if (variant.rfind("e2n", 0) == 0) {
